@@ -39,7 +39,7 @@ import (
 //	                              or has not returned
 //	C17.do-stuck                  quiescent with nobody holding: a Do or done call has not returned
 func init() {
-	Register(Harness{Prop: "C17", Name: "C17/holders", Run: c17Holders})
+	Register(Harness{Prop: "C17", Name: "C17/holders", Run: c17Holders, Weight: 4})
 }
 
 type wrRound struct {
